@@ -43,7 +43,10 @@ THEOREMS = {
                                   "Tr.fwd_list_shift", "Tr.nv_full_shift", "Tr.C12_full_accessibility_arrival", "Tr.C12_full_accessibility_arrival_indexed", "Tr.revStep_shift", "Tr.revFoot_shift",
                                   "Tr.reconLoop_shift", "Tr.optimizeJourney_shift", "Tr.applyFound_shift", "Tr.reverseNode_shift", "Tr.nv_full_shift_rev",
                                   "Tr.C12_full_route_arrival", "Tr.C12_full_route_arrival_indexed", "Tr.emit_shift", "Tr.bestAccess_shift", "Tr.revStep_shift1", "Tr.reverseJourney_shift",
-                                  "Tr.emitsShaped_of_inv", "Tr.nv_full_route_arrival", "Tr.C12_index_transparent_route", "Tr.C12_index_transparent_accessibility", "Tr.fwdScan_from_start", "Tr.revScan_from_start",
+                                  "Tr.emitsShaped_of_inv", "Tr.nv_full_route_arrival",
+                                  "Tr.C12_full_route_departure", "Tr.C12_full_route_departure_indexed", "Tr.C12_full_route", "Tr.fwdStep_shift1", "Tr.bestEgress_shift", "Tr.reversePass_shift",
+                                  "Tr.nv_full_route_departure", "Tr.C12_full_alternatives", "Tr.alternativesRouting_shift", "Tr.altLoop_shift", "Tr.nv_full_alternatives",
+                                  "Tr.C12_index_transparent_route", "Tr.C12_index_transparent_accessibility", "Tr.fwdScan_from_start", "Tr.revScan_from_start",
                                   "Tr.singleReverse_eq0", "Tr.before_start_early", "Tr.before_start_late", "Tr.fwdIndex_spec", "Tr.revIndex_spec", "Tr.C18_index_safe", "Tr.C07_scan_start",
                                   "Tr.C12_departure", "Tr.C12_arrival", "Tr.C12_map_departure", "Tr.C12_map_arrival", "Tr.C12_departure_query", "Tr.C12_arrival_query",
                                   "Tr.C12_accessibility_departure", "Tr.C12_accessibility_arrival", "Tr.AdmFwd.shift", "Tr.AdmRev.shift", "Tr.Reach.shift", "Tr.RReach.shift",
@@ -174,11 +177,15 @@ _reg("C11", "PROOF (full, over the model): Tr.C11_answers / Tr.C11_route - route
      "under the all-inclusive scenario on the dataset with the excluded trips removed (filter commutes with both stable sorts; the calculation reads trips only "
      "through the connection set). " + _M + "; the metamorphic relation is also run on the implementation with physically deleted trips.",
      "Lean 4 theorem + differential correspondence + metamorphic run on the implementation")
-_reg("C12", "PROOF (partial; both accessibility calculations and ARRIVAL-TIME ROUTE queries IN FULL, departure-time routes in two halves): (00) Tr.C12_full_route_arrival(_indexed) - for every "
-     "well-formed dataset, every arrival-time route query and every offset (clock values clear of the sentinels -1 / MAX_INT), the answer of the shifted problem is the shifted answer: same "
-     "status and reason, and for a route EVERY clock time moved by k and every duration, distance, count, stop, line and trip unchanged - the whole pipeline related step by step (single-query "
-     "reverse scan Tr.revStep_shift1, best access stop Tr.bestAccess_shift, reconstruction, clean-up, emission Tr.emit_shift on journeys of the emitted shape, which the C01 chain provides: "
-     "Tr.emitsShaped_of_inv; Tr.nv_full_route_arrival). (0) Tr.C12_full_accessibility_departure(_indexed) and Tr.C12_full_accessibility_arrival(_indexed) - "
+_reg("C12", "PROOF (ALL THREE QUERY TYPES IN FULL on the sentinel-free range; partial only next to 0:00, see the end): (00) Tr.C12_full_route_arrival(_indexed), "
+     "Tr.C12_full_route_departure(_indexed), Tr.C12_full_alternatives - for every well-formed dataset, every route or alternatives query of either time type and every offset (clock values clear "
+     "of the sentinels -1 / MAX_INT: Tr.RouteRevRange / Tr.RouteFwdRange), the answer of the shifted problem is the shifted answer: same status and reason, and for every route EVERY clock time "
+     "moved by k and every duration, distance, count, stop, line and trip unchanged (Tr.shRoute), for alternatives the same number of routes in the same order and the same number of "
+     "calculations - the whole pipeline related step by step: single-query forward scan with its early termination Tr.fwdStep_shift1, best egress stop Tr.bestEgress_shift, reverse pass from "
+     "the best arrival time over the trips the forward pass marked usable Tr.reversePass_shift (single-query reverse scan Tr.revStep_shift1 with a real or unset requested departure, best "
+     "access stop Tr.bestAccess_shift, reconstruction, clean-up, emission Tr.emit_shift on journeys of the emitted shape, which the C01 chain provides: Tr.emitsShaped_of_inv), and the "
+     "alternatives search Tr.altLoop_shift / Tr.alternativesRouting_shift (it reads routes only through durations and line sets); hypotheses satisfiable with a route found: "
+     "Tr.nv_full_route_arrival, Tr.nv_full_route_departure, Tr.nv_full_alternatives. (0) Tr.C12_full_accessibility_departure(_indexed) and Tr.C12_full_accessibility_arrival(_indexed) - "
      "translation invariance of the CALCULATION ITSELF for accessibility in both time types (arrival: reverse scan Tr.revStep_shift, reconstruction Tr.reconLoop_shift, clean-up with all four rewrite "
      "cases Tr.applyFound_shift / Tr.optimizeJourney_shift, transfer count; range condition = every label candidate stays >= 0 on both sides, the property's 'next to 0:00'; Tr.nv_full_shift_rev). For "
      "departure-time accessibility: for EVERY dataset (zero-duration hops, any footpaths), every query (first-waiting cap, limits, scenario) and every offset k, with the clock values clear of the "
@@ -197,11 +204,11 @@ _reg("C12", "PROOF (partial; both accessibility calculations and ARRIVAL-TIME RO
      "range); Tr.C12_map_status_departure / _arrival - an accessibility map is returned on one side iff on the other (the reason classification of C07 and the termination theorems make the "
      "outcome a function of translation-invariant conditions: router tables, and 'some connection is caught': Tr.CaughtF.shift, Tr.CaughtR.shift). This half does not look at the scans: the inductive specifications are translation invariant (Tr.Reach.shift, "
      "Tr.RReach.shift, Tr.AdmFwd.shift, Tr.AdmRev.shift; Tr.conns_shift: the connections of the shifted records are the shifted connections) and both answers are optimal among and attained "
-     "by admissible journeys; hypotheses on the shifted side are only 'clock values stay in range' (Tr.ShiftInRange; the structural ones are derived, Tr.wfData_shift etc.). NOT proved: the "
-     "remaining fields of a route answer (steps, durations, counts, arrival time of arrival-time answers; numberOfTransfers of a map entry; the reason of a failed accessibility request) and "
-     "queries outside those domains (active first-waiting cap), i.e. full translation invariance of the index-free calculation. Those are evaluated as a metamorphic relation on implementation and model for generated offsets (hour "
-     "marks, 24:00, next to 0:00 / 32:00). " + _M + ".",
-     "Lean 4 theorems (hour-index transparency for all calculations; translation invariance of the characterised values via the specifications) + metamorphic relation on implementation and model")
+     "by admissible journeys; hypotheses on the shifted side are only 'clock values stay in range' (Tr.ShiftInRange; the structural ones are derived, Tr.wfData_shift etc.). NOT proved in full: "
+     "datasets and requests where a clock value the scans compare falls below 0 on one side (a connection leaving less than the longest walk plus the waiting time after 0:00, an egress walk "
+     "longer than the requested arrival time): there the tables of the two runs differ in entries that cannot reach the answer, and only the specification-level half (2) and the metamorphic "
+     "runs cover the answers. The relation is also evaluated on implementation and model for generated offsets (hour marks, 24:00, next to 0:00 / 32:00). " + _M + ".",
+     "Lean 4 theorems (translation invariance of the calculation itself for route, alternatives and accessibility queries of both time types; hour-index transparency; specification-level invariance near 0:00) + metamorphic relation on implementation and model")
 _reg("C13", "PROOF (full, over the server model): Tr.C13_history_independent - the answer to a request after any sequence of earlier requests equals the answer of the "
      "initial server, for both cache kinds and whether or not the set was cached; Tr.C13_structure states the source facts it rests on (regenerated: no static state "
      "in the calculation, cache keyed by scenario). Histories are also replayed against the implementation and the model.",
